@@ -25,6 +25,7 @@ VIOLATION_MSGS = (
     "decreases not satisfied", "loop invariant not preserved", "recommendation not met",
     "index out of bounds", "possible bit shift underflow/overflow", "unreachable", "failed precondition",
     "could not prove termination", "cannot show invariant holds",
+    "unable to prove post-condition of closure", "unable to prove pre-condition of closure", "loop invariant not satisfied",
 )
 UNDECIDED_MSGS = ("Resource limit (rlimit) exceeded", "rlimit", "timed out", "smt solver")
 
